@@ -171,7 +171,7 @@ MIXED_SETS = [
 ]
 
 
-def ob_reseat_free(L0, lo, hi, M, ctx):
+def ob_reseat_free(L0, lo, hi, M, ctx, lead=None):
     """second change at a free symbolic beat position p in [lo, hi) (concrete first tempo): walks the extend branches."""
     TimingMap, BCS, BCO, Snap, Snapper = _tm()
     p = ctx.real("p")
@@ -181,7 +181,11 @@ def ob_reseat_free(L0, lo, hi, M, ctx):
     ctx.assume(L1 > 0)
     off = ctx.real("off")
     m = p // M if isinstance(p, SymNum) else F(p) // M
-    bcs = [BCS(60000 / F(L0), M, Snap(0, 0, M)), BCS(_bpm(L1), M, Snap(m, p - m * M, M))]
+    if lead is not None:
+        # a change at measure `lead` (concrete tempo) comes first; the free change follows it by p beats: same analysis, shifted
+        bcs = [BCS(F(150), M, Snap(0, 0, M)), BCS(60000 / F(L0), M, Snap(lead, 0, M)), BCS(_bpm(L1), M, Snap(m + lead, p - m * M, M))]
+    else:
+        bcs = [BCS(60000 / F(L0), M, Snap(0, 0, M)), BCS(_bpm(L1), M, Snap(m, p - m * M, M))]
     # region of the position (decided per path): the two "extend" branches act when the change lies within 0.1 % of a
     # measure / of a beat after a measure line / beat line
     fb = p - (p.floor() if isinstance(p, SymNum) else F(p).__floor__())
@@ -200,12 +204,14 @@ def ob_reseat_free(L0, lo, hi, M, ctx):
     except ValueError as e:
         ctx.check("free.no-exception" + rg, False, note="ValueError: %s" % e)
         return
+    if lead is not None:
+        off = off + lead * M * F(400)  # the times below are those of the last two changes; the seated list starts one change earlier
     t_orig = [off, off + p * F(L0)]
     ctx.check("free.every-change-on-a-measure-line", ctx.all(*[ctx.eq(r.snap.beat, 0) for r in res]))
-    rt = _seated_times(ctx, res, off)
+    rt = _seated_times(ctx, res, off if lead is None else off - lead * M * F(400))
     ctx.check("free.second-change.still-a-tempo-point" + rg, ctx.any(*[ctx.eq(x, t_orig[1]) for x in rt]), note="returned %d changes" % len(res))
     ctx.check("free.first-change.still-a-tempo-point" + rg, ctx.any(*[ctx.eq(x, t_orig[0]) for x in rt]))
-    ctx.check("free.at-most-one-insert", len(res) in (2, 3), note="%d" % len(res))
+    ctx.check("free.at-most-one-insert", len(res) in ((2, 3) if lead is None else (3, 4)), note="%d" % len(res))
     ctx.check("free.second-keeps-its-bpm", ctx.eq(res[-1].bpm * L1, 60000))
     for i, x in enumerate(rt):
         ctx.observe("free.t%d" % i, x)
@@ -254,10 +260,13 @@ def obligations(tier, seed):
         for entry in ("static", "offsets-reseat()"):
             obs.append(Obligation("C11/mixed-metronomes/set%d/%s" % (si, entry), partial(ob_reseat_mixed, ch, entry=entry),
                                   bound="tempo changes %s (measure, beat, beats per measure), symbolic beat lengths and offset; entry point %s" % (ch, entry)))
+    pieces = [(F(0), F(1, 2)), (F(1, 2), F(4)), (F(4), F(4) + F(1, 100)), (F(4) + F(1, 100), F(8)), (F(8), F(8) + F(1, 100)), (F(8) + F(1, 100), F(12))]
+    for lo, hi in pieces[:4]:
+        obs.append(Obligation("C11/free-after-a-change/p[%s,%s)" % (lo, hi), partial(ob_reseat_free, 500, lo, hi, 4, lead=2),
+                              bound="three changes: 150 bpm at measure 0, 120 bpm at measure 2, then a change at a free symbolic beat position p in [%s,%s) after it" % (lo, hi),
+                              max_paths=2000, timeout_s=240))
     for tname in ("ext-mid", "int+ext", "two-in-line", "48th", "ext-measure-line"):
         obs.append(Obligation("C11/bms-read/tempo=%s" % tname, partial(ob_bms_read_seated, tname), bound="BMSMap.read of a file with tempo lines %s (no channel 02): tempo list on measure lines" % (tname,)))
-    # one free symbolic position for the second change
-    pieces = [(F(0), F(1, 2)), (F(1, 2), F(4)), (F(4), F(4) + F(1, 100)), (F(4) + F(1, 100), F(8)), (F(8), F(8) + F(1, 100)), (F(8) + F(1, 100), F(12))]
     for lo, hi in pieces:
         obs.append(Obligation("C11/free/p[%s,%s)" % (lo, hi), partial(ob_reseat_free, 500, lo, hi, 4),
                               bound="second change at a free symbolic beat position p in [%s,%s) after a 120 bpm change (metronome 4), symbolic second tempo and offset" % (lo, hi),
